@@ -21,6 +21,11 @@ def verus_cmd(unit, path, rlimit, extra=()):
     for ext in unit.get("extern", []):
         libs = sorted(glob.glob(os.path.join(DEPS, "lib%s-*.rlib" % ext)))
         if not libs:
+            # self-heal: the dependency build is a pure function of deps/verus-deps (offline); run it once
+            subprocess.run(["sh", os.path.join(os.path.dirname(os.path.dirname(os.path.abspath(__file__))), "setup.sh")],
+                           stdout=subprocess.DEVNULL, stderr=subprocess.DEVNULL)
+            libs = sorted(glob.glob(os.path.join(DEPS, "lib%s-*.rlib" % ext)))
+        if not libs:
             raise RuntimeError("missing rlib for %s; run ./setup.sh" % ext)
         cmd += ["--extern", "%s=%s" % (ext, libs[0])]
     if unit.get("extern"):
